@@ -271,6 +271,17 @@ WITNESSES = []
 # ---------------------------------------------------------------------------- running and printing
 
 def run_sched(c):
+  """A hang observation is re-tried twice: a machine under heavy load can starve a thread hand-over past the
+  watchdog, a genuine hang (runaway thread, lost baton) reproduces every time."""
+  obs = _run_sched(c)
+  for _ in range(2):
+    if obs.get("status") != "hang":
+      break
+    obs = _run_sched(c)
+  return obs
+
+
+def _run_sched(c):
   if c.get("lenient"):
     # corpus witnesses: the listed schedule is followed as far as it applies to the code as it is now,
     # then the non-pre-emptive default; the steps actually taken are what Coq replays
@@ -364,5 +375,5 @@ PRE = "Open Scope nat_scope."
 
 FAMILIES = {
   "sched": Family("sched", IMPORTS, "scase", "corr_sched", "holds_sched", gen_sched, run_sched, lit_case,
-                  nontrivial, None, timeout=40, preamble=PRE),
+                  nontrivial, None, timeout=150, preamble=PRE),
 }
